@@ -426,7 +426,12 @@ func newMap(t *types.Map) *Map {
 	return &Map{idx: map[interface{}]int{}, T: t}
 }
 
-func (m *Map) Len() int { return m.n }
+func (m *Map) Len() int {
+	if m == nil {
+		return 0
+	}
+	return m.n
+}
 
 // find returns the entry for key k, deciding symbolic equalities through st.
 func (m *Map) find(st *State, k Value) *mapEntry {
